@@ -304,3 +304,65 @@ func OmittedWhenOptional(f *Field, v any) bool {
 	}
 	return Equal(f.Type, v, FieldDefault(f))
 }
+
+// SortMaps returns v with every map's entries ordered by the reference encoding of the
+// key, so that two equal values have identical reference encodings.
+func SortMaps(t *Type, v any) any {
+	switch t.Kind {
+	case KVector, KArray:
+		l := v.([]any)
+		out := make([]any, len(l))
+		for i := range l {
+			out[i] = SortMaps(t.Elem, l[i])
+		}
+		return out
+	case KMap:
+		m := v.([]KV)
+		out := make([]KV, len(m))
+		keys := make([]string, len(m))
+		idx := make([]int, len(m))
+		for i, kv := range m {
+			var e Enc
+			e.Value(t.Key, kv.K, 0)
+			keys[i] = string(e.Buf)
+			idx[i] = i
+		}
+		sort.SliceStable(idx, func(a, b int) bool { return keys[idx[a]] < keys[idx[b]] })
+		for i, j := range idx {
+			out[i] = KV{m[j].K, SortMaps(t.Elem, m[j].V)}
+		}
+		return out
+	case KStruct:
+		sv := v.(*SV)
+		out := &SV{St: sv.St, Fields: make([]any, len(sv.Fields))}
+		for i, f := range sv.St.Fields {
+			out.Fields[i] = SortMaps(f.Type, sv.Fields[i])
+		}
+		return out
+	}
+	return v
+}
+
+// CanonBytes is the canonical (all members written, maps sorted) encoding of v under tag 0.
+func CanonBytes(t *Type, v any) []byte {
+	e := Enc{KeepDefaults: true}
+	e.Value(t, SortMaps(t, v), 0)
+	return e.Buf
+}
+
+// DecodeOne decodes a single field of type t (any tag) from b.
+func DecodeOne(t *Type, b []byte) (any, error) {
+	d := &Dec{B: b}
+	ty, _, err := d.Head()
+	if err != nil {
+		return nil, err
+	}
+	v, err := d.Value(t, ty, 0)
+	if err != nil {
+		return nil, err
+	}
+	if d.Pos != len(b) {
+		return nil, fmt.Errorf("%d trailing bytes", len(b)-d.Pos)
+	}
+	return v, nil
+}
